@@ -42,7 +42,7 @@ def plan(tier, seed):
     shards = []
     for i, (e, c) in enumerate(combos):
         shards.append({"name": f"C06-tag-{i}", "shard": i, "kind": "tag", "event": e, "cond": c, "x64": True, "timeout": 3000})
-    nreal = 4
+    nreal = 8  # 4-7: distributions with a restricted support (batches mix points inside and outside it)
     for i in range(nreal):
         shards.append({"name": f"C06-real-{i}", "shard": 100 + i, "kind": "real", "which": i, "full": tier == "thorough", "x64": True,
                        "timeout": 3000})
@@ -217,16 +217,37 @@ def run_shard(shard):
             d = Transformed(Normal(jnp.zeros((2, 3)), jnp.linspace(0.5, 2, 6).reshape(2, 3)),
                             Chain([Affine(jnp.ones((2, 3)), jnp.full((2, 3), 1.7)), AdditiveCondition(Lin(jr.normal(key, (6, 4))), (2, 3), (2, 2))]))
             kind = "Transformed(Normal(2,3), Chain[Affine, AdditiveCondition cond (2,2)])"
-        else:
+        elif which == 3:
             class LinS(eqx.Module):
                 w: jax.Array
                 def __call__(self, c):
                     return self.w * c
             d = Transformed(Normal(0.3, 1.3), AdditiveCondition(LinS(jnp.asarray(0.7)), (), ()))
             kind = "Transformed(Normal(), AdditiveCondition scalar cond) [scalar event, scalar condition]"
+        elif which == 4:
+            from flowjax.distributions import LogNormal
+            d = LogNormal(0.2, 0.8)
+            kind = "LogNormal() [support (0, inf): about half of each batch lies outside]"
+        elif which == 5:
+            from flowjax.distributions import Exponential
+            d = Exponential(jnp.asarray([0.5, 2.0, 1.0]))
+            kind = "Exponential(rate (3,)) [support [0, inf)^3]"
+        elif which == 6:
+            from flowjax.distributions import Uniform
+            d = Uniform(jnp.asarray([-1.0, 0.2]), jnp.asarray([0.5, 1.5]))
+            kind = "Uniform((2,)) [bounded support]"
+        else:
+            from flowjax.bijections import Exp
+            class LinV(eqx.Module):
+                W: jax.Array
+                def __call__(self, c):
+                    return self.W @ c
+            d = Transformed(Normal(jnp.zeros(2), jnp.ones(2)), Chain([AdditiveCondition(LinV(jr.normal(key, (2, 3))), (2,), (3,)), Exp((2,))]))
+            kind = "Transformed(Normal(2), Chain[AdditiveCondition cond (3,), Exp]) [conditional, support (0, inf)^2]"
         event, cshape = d.shape, d.cond_shape
         batches = BATCHES if full else [(), (4,), (5, 1), (1, 4), (2, 5, 4)]
-        for xb, cb in itertools.product(batches, batches):
+        cbatches_ = batches if cshape is not None else [()]
+        for xb, cb in itertools.product(batches, cbatches_):
             try:
                 bshape = np.broadcast_shapes(xb, cb)
             except ValueError:
@@ -235,29 +256,33 @@ def run_shard(shard):
                 continue
             case = {"dist": kind, "method": "log_prob", "x_batch": xb, "cond_batch": cb}
             x = rng.normal(size=xb + event)
-            c = rng.normal(size=cb + cshape)
-            lp = np.asarray(d.log_prob(jnp.asarray(x), jnp.asarray(c)), dtype=np.float64)
+            c = rng.normal(size=cb + cshape) if cshape is not None else None
+            J_ = lambda a: None if a is None else jnp.asarray(a)
+            lp = np.asarray(d.log_prob(jnp.asarray(x), J_(c)), dtype=np.float64)
             rec.evals += 1
             rec.hashes.add(("real", which, xb, cb))
             if lp.shape != bshape:
                 v("logprob.shape", f"{kind}.log_prob shape {lp.shape}, expected {bshape}", case)
                 continue
-            xbb, cbb = np.broadcast_to(x, bshape + event), np.broadcast_to(c, bshape + cshape)
+            xbb = np.broadcast_to(x, bshape + event)
+            cbb = None if c is None else np.broadcast_to(c, bshape + cshape)
             ref = np.empty(bshape)
             for idx in np.ndindex(*bshape):
-                ref[idx] = float(d.log_prob(jnp.asarray(xbb[idx]), jnp.asarray(cbb[idx])))
+                ref[idx] = float(d.log_prob(jnp.asarray(xbb[idx]), None if cbb is None else jnp.asarray(cbb[idx])))
                 rec.count("unbatched_reference_calls")
+            rec.count("reference_elements_outside_support", int(np.isneginf(ref).sum()))
+            rec.count("reference_elements_inside_support", int(np.isfinite(ref).sum()))
             if not np.allclose(lp, ref, rtol=1e-12, atol=1e-12):
                 i = tuple(int(t) for t in np.argwhere(~np.isclose(lp, ref, rtol=1e-12, atol=1e-12))[0])
                 v("logprob.value", f"{kind}.log_prob element {i} = {lp[i]!r} but the unbatched call on the broadcast slice gives {ref[i]!r} (x{xb} cond{cb})", case)
             if lp.size >= 2:
                 rec.nontrivial.add(("real", which, xb, cb))
-        for ss, cb in itertools.product(SAMPLE_SHAPES if full else [(), (3,)], [(), (4,), (2, 2)] if full else [(), (4,)]):
+        for ss, cb in itertools.product(SAMPLE_SHAPES if full else [(), (3,)], ([(), (4,), (2, 2)] if full else [(), (4,)]) if cshape is not None else [()]):
             case = {"dist": kind, "method": "sample_and_log_prob", "sample_shape": ss, "cond_batch": cb}
-            c = rng.normal(size=cb + cshape)
+            c = rng.normal(size=cb + cshape) if cshape is not None else None
             key = jr.PRNGKey(int(rng.integers(0, 2**31 - 1)))
-            s, lp = d.sample_and_log_prob(key, ss, jnp.asarray(c))
-            s1 = d.sample(key, ss, jnp.asarray(c))
+            s, lp = d.sample_and_log_prob(key, ss, J_(c))
+            s1 = d.sample(key, ss, J_(c))
             s, lp, s1 = np.asarray(s, dtype=np.float64), np.asarray(lp, dtype=np.float64), np.asarray(s1, dtype=np.float64)
             rec.evals += 1
             rec.hashes.add(("real-s", which, ss, cb))
@@ -267,12 +292,12 @@ def run_shard(shard):
                 continue
             if not np.allclose(s, s1, rtol=1e-12, atol=1e-12):
                 v("sample.paths_differ", f"{kind}: sample(key) and sample_and_log_prob(key) return different samples", case)
-            cbb = np.broadcast_to(c, bs + cshape)
+            cbb = None if c is None else np.broadcast_to(c, bs + cshape)
             flat = s.reshape((-1,) + event).reshape(len(s.reshape((-1,) + event)), -1)
             if len(np.unique(flat[:, 0])) != flat.shape[0]:
                 v("sample.repeated_draws", f"{kind}: {flat.shape[0] - len(np.unique(flat[:, 0]))} repeated draws inside one batched sample (sample_shape {ss} cond{cb})", case)
             for idx in list(np.ndindex(*bs))[:12]:
-                r = float(d.log_prob(jnp.asarray(s[idx]), jnp.asarray(cbb[idx])))
+                r = float(d.log_prob(jnp.asarray(s[idx]), None if cbb is None else jnp.asarray(cbb[idx])))
                 rec.count("unbatched_reference_calls")
                 if not np.isclose(lp[idx], r, rtol=1e-9, atol=1e-9):
                     v("sample_and_log_prob.value", f"{kind}: returned log-prob {lp[idx]!r} at {idx} but log_prob(sample[idx], condition[idx]) = {r!r}", case)
